@@ -80,7 +80,7 @@ pub fn run(p: &CrashPlan, log: bool) -> (RunReport, String) {
         let mut w = World::new(b.seed, b.sched.clone());
         w.log_on = log;
         w.sndbuf_choices = b.sndbufs.clone();
-        let knobs = ClusterKnobs { worker: b.knobs.clone(), worker_timeout: 10, workers: 1, automatic_restart: true };
+        let knobs = ClusterKnobs { worker: b.knobs.clone(), worker_timeout: 10, workers: 1, automatic_restart: true, boot_delays: vec![] };
         let rec = Arc::new(Mutex::new(CliRecord::default()));
         let crash = Arc::new(Mutex::new((0u64, false)));
         let nclients = (b.clients.len() + p.probes.len()) as i64;
